@@ -5098,6 +5098,11 @@ def get_paths(part, no_repeats=False, all_repeats=False, ignore_leap_info=True):
         A list of path objects
 
     """
+    # segments are registered on a scratch copy, so that the part passed in is left untouched
+    old_recursion_depth = sys.getrecursionlimit()
+    sys.setrecursionlimit(10000)
+    part = deepcopy(part)
+    sys.setrecursionlimit(old_recursion_depth)
     add_segments(part)
     segments = get_segments(part)
     paths = list()
